@@ -87,6 +87,12 @@ CHECKS = {
         text="with_map/with_flat_map (sync or manual base) and f_map/f_flat_map: for every combination of input outcome (value, exception, cancelled from outside; done before, later, from another thread) and fn/error_fn behaviour (absent, return, raise new, re-raise same, return the exception, return a resolved/failed/cancelled/pending future, return truthy or falsy non-futures) the outcome, exception identity, preserved raise site in __traceback__ and the exact number of fn/error_fn calls must match lib/models.py; chains of pure maps must equal the composed map.",
         design_ref="DESIGN.md section 4 (C13)", note=ENGINE_NOTE),
 
+    "C19": dict(
+        category="exploration",
+        technique="differential property-based testing: Hypothesis-drawn with_* chains split at a generated bind point, callables (function, partial, callable object, future-returning), arguments and name assignments; each case run in bind form and in submit form under the deterministic scheduler and compared",
+        text="For random chains of all layer types (depth<=5) over sync/thread-pool bases, executor.bind(fn)/flat_bind(fn) followed by the remaining with_* calls and a call must give the same outcome and the same number of invocations of fn and of every layer function as the same chain built on the executor with submit(fn, *args) (flat_bind == bind + with_flat_map(identity)); every thread created while building either form must carry the name in force at its layer (base name or latest explicit name upstream).",
+        design_ref="DESIGN.md section 4 (C19)", note=ENGINE_NOTE),
+
     "C14": dict(
         category="exploration",
         technique="model-based property testing: and/or fold over admissible linearisations of the completion events; exhaustive outcome x completion-order enumeration + Hypothesis-drawn concurrent completions under the deterministic scheduler",
